@@ -186,9 +186,13 @@ func (d *bufDrv) Seq(q Query) func(yield func(Pair) bool) {
 	case SeqBottomK:
 		s = d.t.BottomK(q.N)
 	}
+	// the call has returned: the caller's memory must be unchanged, and from now on the caller may
+	// reuse its buffers - the sequence must not depend on them (key arguments are not retained by reference)
+	d.after(call)
+	if d.mode == BufShared || d.mode == BufSharedZero {
+		d.Scribble()
+	}
 	return func(yield func(Pair) bool) {
-		// the arguments stay untouched until the iteration is over (the sequence may read them lazily)
-		defer d.after(call)
 		s(func(k []byte, v int) bool { return yield(d.pair(k, v)) })
 	}
 }
